@@ -600,7 +600,9 @@ def analyse(ctx, res, run, dist, jdf_edges, from_corpus=False):
         res.notes.append('launch %s: all %d transcripts complete, mpiexec status %s: %s' % (tag, run['ranks'], run['rc'], ' '.join(run.get('err_full', '')[:600].split())))
     elif not run['complete'] or run['rc'] != 0:
         last = [t.strip().splitlines()[-1] if t.strip() else '<nothing>' for t in run['trs']]
-        res.violations.append({'key': 'harness-died:' + tag, 'what': 'the run of the real code (%d ranks, %d cores) ended with status %s before the script was finished; last transcript lines: %s; %s' % (
+        oob = [l for t in run['trs'] for l in t.splitlines() if l.startswith('#stat reduce_oob_reads') and l.split()[-1] != '0']
+        # a crash right after reduce.jdf read a tile outside the matrix is the listed finding (the stray read may fault)
+        res.violations.append({'key': 'reduce.jdf-reads-tile-outside-matrix' if (oob and any('reduce' in l for l in run['lines'])) else 'harness-died:' + tag, 'what': 'the run of the real code (%d ranks, %d cores) ended with status %s before the script was finished; last transcript lines: %s; %s' % (
             run['ranks'], run['cores'], run['rc'], last, run['err'][-300:]), 'case': {'ranks': run['ranks'], 'cores': run['cores'], 'lines': run['lines'], 'env': run.get('env', {})}, 'seed': ctx.seed})
     all_ops, all_impl, owners = [], [], []
     for r, t in enumerate(run['trs']):
